@@ -11,5 +11,5 @@ cp /verif/harness/go.sum /verif/.work/alt/$id.sum
 export GOFLAGS=-mod=mod GOPROXY=off GOSUMDB=off GOTOOLCHAIN=local
 cd /verif/harness
 VERIF_TIER=${VERIF_TIER:-quick} VERIF_SEED=${VERIF_SEED:-1} VERIF_OUT=/verif/.work/alt/out-$id \
-  go1.26.8 test -modfile=/verif/.work/alt/$id.mod -tags verif -count=1 -timeout 20m ./$pkg/ -run '^Test' "$@" 2>&1 | grep -v "\[rapid\] draw" | tail -25 | cut -c1-700
+  go1.26.8 test -modfile=/verif/.work/alt/$id.mod -tags verif -count=1 -timeout 20m ./$pkg/ -run '^Test' "$@" 2>&1 | grep -v "\[rapid\] draw" | tail -${ALT_TAIL:-25} | cut -c1-700
 rm -rf /verif/.work/alt/out-$id
